@@ -132,3 +132,19 @@ _c.raises = {"BaseException": ["(not self.validating) or self.removed >= 2 or se
 _c.options = dict(_c.options, primitives=dict(_c.options.get("primitives", {}), **{"os.remove": "os.remove@rollback"}),
                   callee_contracts=dict(_c.options.get("callee_contracts", {}), **{"Pack": ("<abstract>", "Pack@ghost"),
                                                                               "DiskObjectStore._add_cached_pack": ("<abstract>", "DiskObjectStore._add_cached_pack@ghost")}))
+
+
+# ---- loose objects, new-style and legacy body: what is handed to set_raw_string is bounded by the CALLER's limit ---------------
+# (core.bigFileThreshold / loose_object_size_limit / an explicit max_size), never by a size the file itself declares
+class_spec(file="<abstract>", cls="LooseObjAbs4", fields={"limit": "int"})
+contract(prop=["C04"], file="<abstract>", func="LooseObjAbs4.set_raw_string@bounded", trusted=True,
+         params={"self": "obj:LooseObjAbs4", "text": "bytes", "sha": "opaque"}, returns="None", raises={"Exception": None},
+         requires=["len(text) <= self.limit"], note="call-site obligation: the inflated payload respects the caller's limit")
+contract(
+    prop=["C04"], file=O, func="ShaFile._parse_object",
+    params={"self": "obj:LooseObjAbs4", "map": "bytes", "max_size": "int"}, returns="None",
+    requires=["max_size >= 0", "self.limit == max_size"],
+    raises={"error": None, "TypeError": None, "Exception": None},
+    loops={1: dict(invariant=["1 <= used"], types={"byte": "int", "used": "int"})},
+    options={"callee_contracts": {"LooseObjAbs4.set_raw_string": ("<abstract>", "LooseObjAbs4.set_raw_string@bounded")}},
+)
